@@ -4,7 +4,7 @@
 From Coq Require Import Lia ZifyBool ZifyNat ZifyN.
 From WV Require Import Model.Base Generated.Consts Model.Bits Model.Leb128 Model.WaveMem
   Spec.TimeSpec Spec.StoreSpec
-  Proofs.BitsProofs Proofs.LebProofs Proofs.WaveMemProofs Proofs.TimeTableProofs Proofs.StoreProofs.
+  Proofs.BitsProofs Proofs.LebProofs Proofs.WaveMemProofs Proofs.TimeTableProofs Proofs.StoreProofs Proofs.RawProofs.
 Ltac Zify.zify_post_hook ::= Z.div_mod_to_equations.
 Open Scope N_scope.
 Arguments N.add : simpl never. Arguments N.mul : simpl never. Arguments N.div : simpl never.
@@ -162,11 +162,15 @@ Definition pack3 (a : aentry) : N * states * list byte :=
 Definition rec_ok (a : aentry) : Prop :=
   let '(_, l, s) := a in length s = bits /\ small_syms l s /\ Forall (fun v => v <= 8) s.
 
-(* an abstract entry is the meaning of a recorded VCD change *)
-Definition decodes (a : aentry) (r : N * list byte) : Prop :=
+(* an abstract entry is the meaning of a recorded change *)
+Definition decodes (a : aentry) (r : N * rec_val) : Prop :=
   let '(g, l, s) := a in
-  g = fst r /\ exists chars, normalize bits (snd r) = Ok chars /\ length chars = bits /\ chars_to_nums chars = Some s /\
-                             small_syms l s /\ (forall l', small_syms l' s -> states_num l <= states_num l').
+  g = fst r /\
+  match snd r with
+  | RText v => exists chars, normalize bits v = Ok chars /\ length chars = bits /\ chars_to_nums chars = Some s
+  | RRaw data st => data = write_n_state_loop st s 0 None /\ length s = bits /\ small_syms st s /\ Forall (fun v => v <= 8) s
+  end /\
+  small_syms l s /\ (forall l', small_syms l' s -> states_num l <= states_num l').
 
 Record sinv (e : encoder) (bl : list blk) (es : list sentry) (R : list aentry) : Prop := {
   si_inv : inv e;
@@ -195,7 +199,7 @@ Lemma vcd_step e bl es R i value e' : sinv e bl es R ->
   exists es' R',
     sinv e' bl es' (R ++ R') /\ e_skip e' = e_skip e /\ table e' = table e /\
     Forall2 decodes R' (if e_skip e || negb (Nat.eqb i id) then []
-                        else [(N.of_nat (length (table e)) - 1, value)]).
+                        else [(N.of_nat (length (table e)) - 1, RText value)]).
 Proof.
   intros Hs H. pose proof (table_len _ _ _ _ Hs) as Htl.
   destruct Hs as [Hinv Hcap Hbl Hok Hidle (se & Hn & Htp & Hd & Hwf & Hprev & Hsz) Hcnt Habs Hrec].
@@ -251,7 +255,79 @@ Proof.
              by (rewrite <- Hprev; lia). reflexivity.
         -- apply Forall_app. split; [assumption|]. constructor; [|constructor]. repeat split; try assumption. congruence.
       * constructor; [|constructor]. cbn [decodes fst snd]. split; [lia|].
-        exists chars. repeat split; assumption.
+        split; [exists chars; repeat split; assumption|]. split; assumption.
+    + (* some other signal *)
+      exists es, []. rewrite app_nil_r.
+      split; [|split; [reflexivity|split; [exact Htab|constructor]]].
+      apply Build_sinv; cbn [e_len e_ttr e_blocks e_signals]; auto.
+      exists se. rewrite nth_error_update_other by assumption. repeat split; auto.
+Qed.
+
+(* a raw (pre-packed) value change of the signal appends exactly one abstract entry (or nothing while skipping) *)
+Lemma raw_step e bl es R i st0 syms e' : sinv e bl es R ->
+  (i = id -> length syms = bits /\ small_syms st0 syms /\ Forall (fun v => v <= 8) syms) ->
+  raw_value_change e i (write_n_state_loop st0 syms 0 None) st0 = Ok e' ->
+  exists es' R',
+    sinv e' bl es' (R ++ R') /\ e_skip e' = e_skip e /\ table e' = table e /\
+    Forall2 decodes R' (if e_skip e || negb (Nat.eqb i id) then []
+                        else [(N.of_nat (length (table e)) - 1, RRaw (write_n_state_loop st0 syms 0 None) st0)]).
+Proof.
+  intros Hs Hraw H. pose proof (table_len _ _ _ _ Hs) as Htl.
+  destruct Hs as [Hinv Hcap Hbl Hok Hidle (se & Hn & Htp & Hd & Hwf & Hprev & Hsz) Hcnt Habs Hrec].
+  unfold raw_value_change in H.
+  destruct (with_signal_inv e i _ e' Hinv H) as [Hinv' Htab].
+  unfold with_signal in H. destruct (e_ttr e) as [|t0 tr] eqn:Ettr; [discriminate|].
+  destruct (e_skip e) eqn:Esk.
+  - inversion H; subst e'. exists es, []. rewrite app_nil_r. cbn [orb].
+    split; [|split; [first [reflexivity|exact Esk]|split; [reflexivity|constructor]]].
+    apply Build_sinv; auto; [intros E; rewrite Ettr in E; discriminate|]. exists se. repeat split; auto.
+  - destruct (nth_error (e_signals e) i) as [sei|] eqn:Eni; [|discriminate]. cbn [of_option bind] in H.
+    destruct (add_n_bit_change sei (u16_wrap (e_len e - 1)) (write_n_state_loop st0 syms 0 None) st0) as [sei'| |] eqn:Eadd; try discriminate.
+    cbn [bind] in H. inversion H; subst e'; clear H. cbn [e_skip orb].
+    destruct (Nat.eqb_spec i id) as [->|Hne]; cbn [negb].
+    + (* the signal itself *)
+      rewrite Hn in Eni. inversion Eni; subst sei; clear Eni.
+      destruct (Hraw eq_refl) as (Hlc & Hs0 & H8). set (nums := syms) in *.
+      destruct (add_n_bit_change_entry se _ st0 nums bits sei' Htp bits_ge2 Hlc Hs0 H8 Eadd)
+        as (st & Hsm & Hlst & Hmin & Hle & Hdata & Hone & Htp' & Hprev' & Hmax').
+      pose proof (inv_len _ Hinv) as Hlen. rewrite Ettr in Hlen. cbn [length] in Hlen.
+      assert (Hidx : u16_wrap (e_len e - 1) = e_len e - 1) by (unfold u16_wrap; rewrite N.mod_small; lia).
+      rewrite Hidx in *.
+      assert (Hln : length nums = bits) by exact Hlc.
+      set (ent := (e_len e - 1 - se_prev se, st, write_n_state_loop st nums 0 None) : sentry) in *.
+      exists (es ++ [ent]), [(blocks_len bl + (e_len e - 1), st, nums)].
+      split; [|split; [reflexivity|split; [exact Htab|]]].
+      * apply Build_sinv; cbn [e_len e_ttr e_blocks e_signals]; auto.
+        -- intros E. discriminate.
+        -- exists sei'. split; [eapply nth_error_update_same; eassumption|].
+           split; [congruence|]. split; [now rewrite Hdata, Hd, enc_stream_app|].
+           split.
+           { apply Forall_app. split.
+             - eapply Forall_impl; [|exact Hwf]. intros a. apply wf_mono'. rewrite Hmax'. apply join_l'.
+             - constructor; [|constructor]. unfold ent, wf_sentry. split.
+               + repeat split; [exact bits_ge2|rewrite Hmax'; pose proof (join_r' (se_max se) st0); lia|rewrite packed_length; congruence].
+               + destruct (Nat.eqb_spec bits 1) as [E1|E1].
+                 * specialize (Hone E1). assert (Hl1 : length nums = 1%nat) by congruence.
+                   destruct nums as [|bv [|bv2 r]]; try discriminate. rewrite wns_single. cbn [hd] in *.
+                   apply Forall_cons_iff in H8 as [H8 _]. assert (2 ^ 32 = 4294967296) by reflexivity.
+                   repeat split; [lia|exact H8|exact Hone].
+                 * pose proof (states_num_lt4 st). assert (2 ^ 32 = 4294967296) by reflexivity. lia. }
+           split; [rewrite sum_deltas_app; unfold ent; cbn [fst]; lia|].
+           rewrite Hdata, !app_length. unfold ent at 1, enc_entry.
+           destruct (Nat.eqb bits 1).
+           { pose proof (leb_write_length ((e_len e - 1 - se_prev se) * 16 + hd 0 (write_n_state_loop st nums 0 None))). cbn [length]. nia. }
+           rewrite app_length, packed_length.
+           pose proof (leb_write_length ((e_len e - 1 - se_prev se) * 4 + states_num st)).
+           assert (div_ceil (length nums) (per_byte st) <= bits)%nat.
+           { unfold div_ceil. rewrite Hln. destruct st; cbn [per_byte]; lia. }
+           cbn [length]. lia.
+        -- rewrite !app_length. cbn [length]. lia.
+        -- rewrite map_app, Habs, abs_from_app, <- app_assoc. cbn [map pack3]. unfold ent. cbn [fst snd].
+           replace (blocks_len bl + sum_deltas es + (e_len e - 1 - se_prev se)) with (blocks_len bl + (e_len e - 1))
+             by (rewrite <- Hprev; lia). reflexivity.
+        -- apply Forall_app. split; [assumption|]. constructor; [|constructor]. repeat split; try assumption.
+      * constructor; [|constructor]. cbn [decodes fst snd]. split; [lia|].
+        split; [repeat split; assumption|]. split; assumption.
     + (* some other signal *)
       exists es, []. rewrite app_nil_r.
       split; [|split; [reflexivity|split; [exact Htab|constructor]]].
@@ -356,14 +432,22 @@ Proof.
     + unfold table. rewrite Hb, Hnil. reflexivity.
 Qed.
 
-(* the histories considered: the signal is driven by VCD value changes only *)
+(* the histories considered: the signal is driven by VCD value changes and by raw value changes whose data is
+   the packed form of `bits` valid symbols (what the GHW vector buffer delivers); no real-valued changes *)
 Definition op_ok (op : enc_op) : Prop :=
-  match op with OpRaw i _ _ => i <> id | OpReal i _ => i <> id | _ => True end.
+  match op with
+  | OpRaw i data st =>
+    i = id -> exists syms, data = write_n_state_loop st syms 0 None /\ length syms = bits /\
+                           small_syms st syms /\ Forall (fun v => v <= 8) syms
+  | OpReal i _ => i <> id
+  | _ => True
+  end.
 
 Fixpoint count_vcd (ops : list enc_op) : nat :=
   match ops with
   | [] => O
   | OpVcd i _ :: r => if Nat.eqb i id then S (count_vcd r) else count_vcd r
+  | OpRaw i _ _ :: r => if Nat.eqb i id then S (count_vcd r) else count_vcd r
   | _ :: r => count_vcd r
   end.
 
@@ -396,9 +480,23 @@ Proof.
       destruct (e_skip e || negb (Nat.eqb i id)).
       * inversion Hdec; subst. exact Hrec.
       * inversion Hdec as [|a b l1 l2 Hab Hl12]; subst. inversion Hl12; subst. cbn [app]. constructor; assumption.
-    + destruct (other_step e bl es R i _ e1 Hs Hop E1) as (Hs1 & Hsk & Htab).
-      destruct (IH e1 bl es R e' Hs1 Hok Hbud H) as (bl' & es' & R' & Hs' & Hrec).
-      exists bl', es', R'. split; [exact Hs'|]. now rewrite Htab, Hsk in Hrec.
+    + (* raw value change *)
+      destruct (Nat.eqb_spec i id) as [Ei|Ei].
+      * destruct (Hop Ei) as (syms & -> & Hraw).
+        destruct (raw_step e bl es R i st syms e1 Hs (fun _ => Hraw) E1) as (es1 & R1 & Hs1 & Hsk & Htab & Hdec).
+        assert (Hlen1 : (length R1 <= 1)%nat).
+        { apply forall2_length in Hdec. rewrite Hdec. destruct (e_skip e || negb (Nat.eqb i id)); cbn; lia. }
+        destruct (IH e1 bl es1 (R ++ R1) e' Hs1 Hok) as (bl' & es' & R' & Hs' & Hrec); [|exact H|].
+        { rewrite app_length. nia. }
+        exists bl', es', (R1 ++ R'). rewrite app_assoc. split; [exact Hs'|].
+        rewrite Htab, Hsk in Hrec. subst i. rewrite Nat.eqb_refl in *. cbn [negb] in *.
+        destruct (e_skip e || false).
+        -- inversion Hdec; subst. exact Hrec.
+        -- inversion Hdec as [|a b l1 l2 Hab Hl12]; subst. inversion Hl12; subst. cbn [app]. constructor; assumption.
+      * destruct (other_step e bl es R i _ e1 Hs Ei E1) as (Hs1 & Hsk & Htab).
+        destruct (IH e1 bl es R e' Hs1 Hok Hbud H) as (bl' & es' & R' & Hs' & Hrec).
+        exists bl', es', R'. split; [exact Hs'|]. rewrite Htab, Hsk in Hrec.
+        replace (e_skip e || negb false) with true by (destruct (e_skip e); reflexivity). exact Hrec.
     + destruct (other_step e bl es R i _ e1 Hs Hop E1) as (Hs1 & Hsk & Htab).
       destruct (IH e1 bl es R e' Hs1 Hok Hbud H) as (bl' & es' & R' & Hs' & Hrec).
       exists bl', es', R'. split; [exact Hs'|]. now rewrite Htab, Hsk in Hrec.
@@ -591,6 +689,9 @@ Proof.
   - specialize (IH tbl skip). destruct skip; cbn [orb].
     + destruct (Nat.eqb i id); lia.
     + destruct (Nat.eqb i id); cbn [negb length]; lia.
+  - specialize (IH tbl skip). destruct skip; cbn [orb].
+    + destruct (Nat.eqb i id); lia.
+    + destruct (Nat.eqb i id); cbn [negb length]; lia.
 Qed.
 
 Section Transparent.
@@ -612,7 +713,7 @@ Hypothesis bits_ge2 : (1 <= bits)%nat.
    values reported once *)
 Theorem storage_transparent tpes ops e blocks ttb :
   nth_error tpes id = Some (EncBits bits) ->
-  Forall (op_ok id) ops ->
+  Forall (op_ok id bits) ops ->
   N.of_nat (count_vcd id ops) * (10 + N.of_nat bits) < 4294967264 ->
   run_ops parse_f64 lz_compress cap (enc_new tpes) ops = Ok e ->
   enc_finish lz_compress e = Ok (blocks, ttb) ->
@@ -850,8 +951,15 @@ End Append.
 Lemma decodes_fun bits a b r : decodes bits a r -> decodes bits b r -> a = b.
 Proof.
   destruct a as [[ga la] sa], b as [[gb lb] sb]. cbn [decodes].
-  intros (Hg1 & c1 & Hn1 & _ & Hc1 & Hs1 & Hm1) (Hg2 & c2 & Hn2 & _ & Hc2 & Hs2 & Hm2).
-  rewrite Hn1 in Hn2. inversion Hn2; subst c2. rewrite Hc1 in Hc2. inversion Hc2; subst sb.
+  intros (Hg1 & Hv1 & Hs1 & Hm1) (Hg2 & Hv2 & Hs2 & Hm2).
+  assert (sa = sb).
+  { destruct (snd r) as [v|data st].
+    - destruct Hv1 as (c1 & Hn1 & _ & Hc1). destruct Hv2 as (c2 & Hn2 & _ & Hc2).
+      rewrite Hn1 in Hn2. inversion Hn2; subst c2. rewrite Hc1 in Hc2. now inversion Hc2.
+    - destruct Hv1 as (Hd1 & Hl1 & Hq1 & _). destruct Hv2 as (Hd2 & Hl2 & Hq2 & _).
+      pose proof (pack_unpack st sa Hq1) as P1. pose proof (pack_unpack st sb Hq2) as P2.
+      rewrite <- Hd1, Hl1 in P1. rewrite <- Hd2, Hl2 in P2. rewrite P1 in P2. now inversion P2. }
+  subst sb.
   assert (states_num la = states_num lb) by (specialize (Hm1 lb Hs2); specialize (Hm2 la Hs1); lia).
   assert (la = lb) by (destruct la, lb; cbn in *; congruence). congruence.
 Qed.
@@ -869,7 +977,7 @@ Theorem storage_independent_of_segmentation
   (forall d n, (length d <= n)%nat -> lzd1 (lzc1 d) n = Some d) ->
   (forall d n, (length d <= n)%nat -> lzd2 (lzc2 d) n = Some d) ->
   1 <= cap1 <= 65536 -> 1 <= cap2 <= 65536 -> (1 <= bits)%nat ->
-  nth_error tpes id = Some (EncBits bits) -> Forall (op_ok id) ops ->
+  nth_error tpes id = Some (EncBits bits) -> Forall (op_ok id bits) ops ->
   N.of_nat (count_vcd id ops) * (10 + N.of_nat bits) < 4294967264 ->
   run_ops parse1 lzc1 cap1 (enc_new tpes) ops = Ok e1 -> enc_finish lzc1 e1 = Ok (b1, t1) ->
   run_ops parse2 lzc2 cap2 (enc_new tpes) ops = Ok e2 -> enc_finish lzc2 e2 = Ok (b2, t2) ->
@@ -894,7 +1002,7 @@ Example storage_example :
   exists e blocks ttb,
     run_ops (fun _ => None) (fun d => d) 2 (enc_new [EncBits 3; EncBits 1]) ops = Ok e /\
     enc_finish (fun d => d) e = Ok (blocks, ttb) /\ length blocks = 2%nat /\ ttb = [1; 2; 3; 5] /\
-    recorded 0 ops [] false = [(0, [98; 49; 120; 48]); (1, [98; 49; 88; 48]); (2, [98; 49; 49; 49]); (3, [98; 122])] /\
+    recorded 0 ops [] false = [(0, RText [98; 49; 120; 48]); (1, RText [98; 49; 88; 48]); (2, RText [98; 49; 49; 49]); (3, RText [98; 122])] /\
     (do s <- load_signal (fun d _ => Some d) blocks 0 (EncBits 3); observe_signal s)
     = Ok [(0, KFour, [49; 120; 48]); (2, KBinary, [49; 49; 49]); (3, KFour, [122; 122; 122])].
 Proof. cbn zeta. do 3 eexists. vm_compute. repeat split; reflexivity. Qed.
@@ -950,7 +1058,7 @@ Qed.
 Theorem appended_transparent tpes (opss : list (list enc_op)) (encs : list encoder) first others e blocks ttb :
   nth_error tpes id = Some (EncBits bits) ->
   Forall2 (fun ops en => run_ops parse_f64 lz_compress cap (enc_new tpes) ops = Ok en) opss encs ->
-  Forall (fun ops => Forall (op_ok id) ops /\ N.of_nat (count_vcd id ops) * (10 + N.of_nat bits) < 4294967264) opss ->
+  Forall (fun ops => Forall (op_ok id bits) ops /\ N.of_nat (count_vcd id ops) * (10 + N.of_nat bits) < 4294967264) opss ->
   encs = first :: others ->
   append_all lz_compress first others = Ok e ->
   enc_finish lz_compress e = Ok (blocks, ttb) -> N.of_nat (length ttb) < 4294967296 ->
